@@ -143,33 +143,47 @@ func more2StoreThenDelete(p *Program, r *Report) {
 			keyIdx = len(args) - 2
 		}
 		for _, rt := range Origins(args[keyIdx], nil) {
-			if rt.Kind == "const" && strings.Trim(rt.Desc, `"`) == hdr {
+			if rt.Kind == "const" && hdr != "" && strings.HasPrefix(strings.Trim(rt.Desc, `"`), hdr) {
 				return true
 			}
 		}
 		return false
 	}
-	var stores, deletes []metaCall
-	for _, mc := range metaCallsIn(f) {
-		if !isUserMeta(mc) {
-			continue
-		}
-		switch mc.method {
-		case "StoreAttribute":
-			if isNilConst(mc.call.Common().Args[0]) { // by path: the published object itself
-				stores = append(stores, mc)
-			}
-		case "DeleteAttribute":
-			deletes = append(deletes, mc)
+	// the unit: CopyObject and the functions of its package it still calls (a branch split off into a method
+	// that defers, say, is not inlined); the order is judged inside each function that does both
+	unit := []*ssa.Function{f}
+	inUnit := staticCallees(p, f)
+	for _, g := range p.FuncsIn("backend/posix") {
+		if g != f && g.Parent() == nil && inUnit[fnName(g)] && !isAnchored(g) {
+			unit = append(unit, g)
 		}
 	}
+	var stores, deletes []metaCall
 	bad := ""
-	for _, d := range deletes {
-		for _, s := range stores {
-			if mayPrecede(s.call, d.call) {
-				bad = p.Pos(d.call.Pos())
+	for _, g := range unit {
+		var st, de []metaCall
+		for _, mc := range metaCallsIn(g) {
+			if !isUserMeta(mc) {
+				continue
+			}
+			switch mc.method {
+			case "StoreAttribute":
+				if isNilConst(mc.call.Common().Args[0]) { // by path: the published object itself
+					st = append(st, mc)
+				}
+			case "DeleteAttribute":
+				de = append(de, mc)
 			}
 		}
+		for _, d := range de {
+			for _, s := range st {
+				if mayPrecede(s.call, d.call) {
+					bad = p.Pos(d.call.Pos())
+				}
+			}
+		}
+		stores = append(stores, st...)
+		deletes = append(deletes, de...)
 	}
 	r.Check(len(deletes) > 0 && len(stores) > 0 && bad == "", rule, fnName(f)+"/user-metadata:delete-after-store", p.Pos(f.Pos()), "old keys are deleted before the new ones are stored", "old user-metadata keys are deleted (at "+bad+") after the new ones were stored on the same object: a key present in both sets is lost although the copy is acknowledged")
 }
